@@ -362,11 +362,11 @@ class C06(ResolveSpec):
 
 class C12(ResolveSpec):
     pid = "C12"
-    level_text = 'Theorems C12_fully_only_if / C12_fully_if / C12_search_minimax: a crate is classified fully audited only if every required criterion has an exemption-free chain, and always when chains at caveat level <= NonImportableAudit exist; from the minimax optimality of the heap search (search_spec) with the CaveatLevel order read from the source. The prune half of the property is covered by the Update model (see level_note).'
+    level_text = 'Theorems C12_fully_only_if / C12_fully_if / C12_search_minimax: a crate is classified fully audited only if every required criterion has an exemption-free chain, and always when chains at caveat level <= NonImportableAudit exist; from the minimax optimality of the heap search (search_spec) with the CaveatLevel order read from the source. The prune half: C12_pruned_exemption_criteria_are_needed — prune (PreferFreshImports search, exemption pruning on; both re-read from main.rs) leaves on an exemption only criteria that some search recorded for it, and every recorded criterion belongs to an in-graph version that has NO certifying chain of audits and grants alone (provenance invariant on the required-entry map + minimax: a chain of audits and grants has caveat level <= FreshImport < Exemption).'
     level_note = 'as C01. The statement about `cargo vet prune` keeping exemptions is decided on the `update` case kind (Update.v) when present in this revision; otherwise only the resolver half is claimed.'
     design_ref = 'DESIGN.md §4 C12'
     coq_files = ["Properties/C12.v"]
-    theorems = ["C12_fully_only_if", "C12_fully_if", "C12_search_minimax"]
+    theorems = ["C12_fully_only_if", "C12_fully_if", "C12_search_minimax", "C12_prune_mode", "C12_pruned_exemption_criteria_are_needed"]
     rule = ("as C01 with exemptions on in-graph and intermediate versions competing with audits; non-trivial = Success with at "
             "least one crate in each of two different categories or a path mixing exemption and audit edges")
     projection_doc = "success classification lists; for every required (node, criterion) whether the chosen path uses an exemption"
